@@ -139,4 +139,3 @@ func init() {
 		return 0
 	})
 }
-
